@@ -161,6 +161,10 @@ func (p *Prog) roleKeys(f *Func) map[string]bool {
 	}
 	keys[f.Key] = true
 	name := f.Obj.Name()
+	var recvNamed *types.Named
+	if sig := f.Obj.Type().(*types.Signature); sig.Recv() != nil {
+		recvNamed = namedOf(sig.Recv().Type())
+	}
 	for _, pkg := range p.Pkgs {
 		if !libPkgs[pkg.PkgPath] {
 			continue
@@ -173,6 +177,10 @@ func (p *Prog) roleKeys(f *Func) map[string]bool {
 			}
 			it, ok := tn.Type().Underlying().(*types.Interface)
 			if !ok {
+				continue
+			}
+			// only interfaces the receiver type implements (by method names)
+			if recvNamed == nil || !hasAllMethods(recvNamed.Origin(), it) {
 				continue
 			}
 			for i := 0; i < it.NumMethods(); i++ {
